@@ -29,6 +29,7 @@ func runC08(e *Env) error {
 		"(f) integers of every decimal length up to 2^53 computed by + - * / % ^ and unary minus, written in every text-taking position (~, starts/ends with, in, matches, hash keys, subscripts, string filters, join, comparison with text, set, for, if, include, macro) against math/big's decimal spelling; " +
 		"(g) every position of eleven kinds of sequence addressed by a subscript computed in 32 ways (operators, Go int / int64 / float64 variables, set variables, filters, functions, conditionals, text, loop variables, random p + T - T), the access written in every syntactic position, against the element put there; " +
 		"(h) decimals held as text (every 0.00 .. 0.99, grids, signs, exponents, other spellings, 17 digits, random) from eleven sources in every comparison and arithmetic operator and position against strconv.ParseFloat and IEEE arithmetic, validated on number literals and float64 values first; " +
+		"(i) prefix operators (-, +, not, doubled, mixed) in front of subscripted operands (context list, list literal, map, nested list, range(), call results, attribute paths, parenthesised) with literal / computed / string / nested / chained subscripts, followed by nothing, a filter, a binary operator on either side, a comparison, a test or a conditional, in every syntactic position, through the model and against the element put there; " +
 		"non-trivial = at least two operators; distinct by source"
 	ctx := map[string]any{"a": 7, "b": 2, "c": 3, "s": "ab", "u": "b", "t": true, "f": false, "l": []interface{}{1, 2, "b"}, "z": 0}
 	atomSets := [][3]GExpr{
@@ -220,6 +221,10 @@ func runC08(e *Env) error {
 	}
 	// (g) index accesses whose subscript is computed (c08_subscript.go)
 	if err := c08ComputedSubscripts(e); err != nil {
+		return err
+	}
+	// (i) prefix operators in front of subscripted operands (c08_prefix.go)
+	if err := c08PrefixSubscripts(e); err != nil {
 		return err
 	}
 	if r.Full() {
